@@ -81,6 +81,9 @@ pub struct Builder {
     pub kf: Switches,
     /// ids of HTML meta elements in the order they were inserted (for C19)
     pub metas_inserted: Vec<Id>,
+    /// the document allows declarative shadow roots / attaching one succeeds (the sink's answers)
+    pub dsd_allow: bool,
+    pub dsd_succeed: bool,
 }
 
 pub const SPECIAL_HTML: &[&str] = &[
@@ -137,6 +140,8 @@ impl Builder {
             counters: BTreeMap::new(),
             kf,
             metas_inserted: vec![],
+            dsd_allow: false,
+            dsd_succeed: false,
         }
     }
 
